@@ -54,6 +54,9 @@ def failing_statements(rng, g, name, cols):
     out.append(("delete/notable", {"k": "delete", "table": "nosuch", "where": None}, 1))
     out.append(("update/notable", {"k": "update", "table": "nosuch", "sets": [("a", 1)], "where": None}, 1))
     out.append(("create/duplicate", {"k": "create", "table": name, "cols": cols}, 1))
+    # the same name with OTHER columns (more, fewer, other types): nothing of the refused definition may stick
+    other = [("z%d" % i, rng.choice(["int", "varchar", "boolean", "bigint"]), 10) for i in range(rng.choice([1, len(cols) + 1, len(cols)]))]
+    out.append(("create/duplicate-other-columns", {"k": "create", "table": name, "cols": other}, 1))
     # a column name used twice, at position k of m (refused before the table is registered)
     m = rng.randint(2, 4)
     k = rng.randint(2, m)
